@@ -454,7 +454,23 @@ func (c *Client) Tx(ctx context.Context, hash []byte, prove bool) (*ctypes.Resul
 	}
 
 	// Validate the proof.
-	return res, res.Proof.Validate(l.DataHash)
+	if err := res.Proof.Validate(l.DataHash); err != nil {
+		return nil, err
+	}
+
+	// The proof is for res.Proof.Data at position res.Proof.Proof.Index: the
+	// transaction, hash and index we return must be the proven ones.
+	if !bytes.Equal(res.Tx, res.Proof.Data) {
+		return nil, errors.New("tx does not match the transaction proven by the proof")
+	}
+	if !bytes.Equal(res.Hash, res.Tx.Hash()) {
+		return nil, errors.New("hash does not match the proven transaction")
+	}
+	if int64(res.Index) != res.Proof.Proof.Index {
+		return nil, errors.New("index does not match the proven position")
+	}
+
+	return res, nil
 }
 
 func (c *Client) TxSearch(
